@@ -24,7 +24,7 @@ def ev(**kw):
 
 
 def one(rng: random.Random, k: int) -> dict:
-    td = c02.random_desc(rng, rng.randint(2, 5))
+    td = c02.random_desc(rng, rng.randint(2, 5), picker=True)
     pd = pcall.tla_desc_to_py(td)
     build.LOG.clear()
     with contextlib.redirect_stdout(io.StringIO()):
